@@ -244,7 +244,7 @@ Lemma key_body_half k :
   key_body (pub_half k) = ([4] ++ int_to_bytes (k_created k) 4 ++ int_to_bytes (k_alg k) 1) ++ pubmat_bytes (k_mat k).
 Proof.
   rewrite key_body_split. unfold keymaterial_bytes, pub_half. cbn [k_mat k_sec k_created k_alg].
-  rewrite app_nil_r. reflexivity.
+  destruct (is_opaque (k_mat k)); rewrite app_nil_r; reflexivity.
 Qed.
 
 Lemma half_body_eq_rfc k : wf_pub k -> key_body (pub_half k) = rfc_pub_body (k_created k) (k_alg k) (k_mat k).
@@ -303,3 +303,27 @@ Lemma real_publen_opaque k : is_opaque (k_mat k) = true -> real_publen k.
 Proof. unfold real_publen, publen. destruct (k_mat k); cbn [is_opaque]; intros H; try discriminate. reflexivity. Qed.
 Lemma material_prefix_real k : real_publen k -> firstn (Z.to_nat (publen k)) (keymaterial_bytes k) = pubmat_bytes (k_mat k).
 Proof. intros H. unfold keymaterial_bytes. apply firstn_app_exact. unfold real_publen in H. lia. Qed.
+
+(* ---------- the secret tail under the String2Key.__bool__ of repair 8563c06 (usage != 0) ---------- *)
+(* every non-zero usage octet - 254, 255 or a cipher id - is followed by what String2Key writes and the ciphertext only *)
+Lemma sec_tail_protected sp : s_usage sp <> 0 -> sec_tail sp = s_usage sp :: s_s2k sp ++ s_enc sp.
+Proof.
+  intros H. unfold sec_tail, s2k_bytes, s2k_on. replace (s_usage sp =? 0) with false by lia. cbn [negb app].
+  rewrite app_nil_r. reflexivity.
+Qed.
+Lemma sec_tail_clear sp : s_usage sp = 0 -> sec_tail sp = 0 :: flat_map to_mpibytes (s_priv sp) ++ s_chk sp.
+Proof. intros H. unfold sec_tail, s2k_bytes, s2k_on. rewrite H. reflexivity. Qed.
+(* the rule before the repair is the same function on the usage octets 0, 254 and 255 ... *)
+Lemma sec_tail_old_same sp : s_usage sp = 0 \/ s_usage sp = 254 \/ s_usage sp = 255 -> sec_tail_old sp = sec_tail sp.
+Proof.
+  intros [H|[H|H]]; unfold sec_tail_old, sec_tail, s2k_bytes, s2k_on, s2k_on_old; rewrite H; reflexivity.
+Qed.
+(* ... and wrong on a cipher-id usage octet: usage octet and the cleared integers instead of usage octet, IV, ciphertext *)
+Definition legacy_witness : secpart :=
+  {| s_usage := 7; s_s2k := [1; 2; 3; 4; 5; 6; 7; 8; 9; 10; 11; 12; 13; 14; 15; 16]; s_enc := [200; 201; 202; 203];
+     s_priv := [0]; s_chk := [] |}.
+Lemma sec_tail_legacy_old_refuted :
+  sec_tail_old legacy_witness <> sec_tail legacy_witness /\
+  sec_tail legacy_witness = 7 :: s_s2k legacy_witness ++ s_enc legacy_witness /\
+  sec_tail_old legacy_witness = [7; 0; 0].
+Proof. repeat split; vm_compute; discriminate. Qed.
